@@ -154,6 +154,10 @@ func (st *State) heapInit(name, srt string) Term {
 		if f := st.fx.heapWF(name, srt, n, "alloc@0"); f != "" {
 			st.fx.declare("alloc@0", "(declare-const alloc@0 Int)")
 			st.fx.axiom(f)
+			if !st.fx.declared["epoch@0"] {
+				st.fx.declared["epoch@0"] = true
+				st.fx.axiom("(forall ((q.w Int)) (! (=> (<= q.w alloc@0) (<= (epoch q.w) alloc@0)) :pattern ((epoch q.w))))")
+			}
 		}
 	}
 	st.fx.heapSorts[name] = srt
@@ -178,14 +182,22 @@ func (fx *FnExec) heapWF(name, srt, arr, bound string) Term {
 		}
 		return ""
 	}
+	// References stored in an object allocated up to `bound` denote objects
+	// allocated up to `bound`. The contents of a location that is NOT yet
+	// allocated stand for whatever a later allocation (by a callee, a loop
+	// iteration) puts there: those are bounded by epoch(w), the watermark when
+	// w's allocating step finished (see bumpAlloc).
 	bnd := func(kind, v string) string {
+		le := func(x string) string {
+			return "(or (<= " + x + " " + bound + ") (<= " + x + " (epoch q.w)))"
+		}
 		switch kind {
 		case "ref":
-			return "(<= " + v + " " + bound + ")"
+			return le(v)
 		case "slice":
-			return "(<= (sptr " + v + ") " + bound + ")"
+			return le("(sptr " + v + ")")
 		case "iface":
-			return "(<= (ival " + v + ") " + bound + ")"
+			return le("(ival " + v + ")")
 		}
 		return ""
 	}
@@ -248,6 +260,14 @@ func (st *State) nameIfLarge(t Term, srt string) Term {
 	return c
 }
 
+// bumpAlloc moves the allocation watermark to na (>= the current one): every
+// object allocated by the step just taken holds references below na.
+func (st *State) bumpAlloc(na Term) {
+	st.assume("(>= " + na + " " + st.alloc + ")")
+	st.assume("(forall ((q.w Int)) (! (=> (and (> q.w " + st.alloc + ") (<= q.w " + na + ")) (<= (epoch q.w) " + na + ")) :pattern ((epoch q.w))))")
+	st.alloc = na
+}
+
 func (st *State) snapshotHeap() map[string]Term {
 	m := make(map[string]Term, len(st.heap))
 	for k, v := range st.heap {
@@ -260,6 +280,7 @@ func (st *State) snapshotHeap() map[string]Term {
 func (st *State) freshRef(hint string) Term {
 	r := st.fx.freshConst(hint, "Int")
 	st.assume("(> " + r + " " + st.alloc + ")")
+	st.assume("(<= (epoch " + r + ") " + r + ")")
 	st.alloc = r
 	return r
 }
@@ -360,6 +381,8 @@ type Obligation struct {
 	Instance int
 	Inputs   map[string]string // model-relevant input names -> term (for replay)
 	Invert   bool              // vacuity guard: passes unless the assumptions are contradictory
+	nameSteps bool             // build the query with the step assumptions named (unsat-core check)
+	PreLen   int               // vacuity step: Assumes[:PreLen] is the path condition before the assumed step (0: none)
 }
 
 func (st *State) pathString() string {
